@@ -10,7 +10,7 @@
 // established with channels (handlers block until released, hooks wait for the effect they need). The
 // only bounded waits are for the *absence* of something (e.g. "no OnReady hook ran after a failed
 // listen"); they can only make the harness miss a defect, never report one that is not there.
-// A per-case deadline (30 s) fires only if Start never returns: that is an observation (`RES 8`).
+// A per-case deadline (12 s) fires only if Start never returns: that is an observation (`RES 8`).
 package main
 
 import (
@@ -50,7 +50,7 @@ const (
 	bOK       = 0
 	bErr      = 1 // returns an error (OnStart, OnReload)
 	bPanic    = 2
-	bBlock    = 3 // OnStart: signal arrives while the hook waits for its context, returns ctx.Err(); OnShutdown: waits for the shutdown deadline
+	bBlock    = 3 // OnStart: signal arrives while the hook waits for its context, returns ctx.Err(); OnShutdown: waits for the shutdown deadline; OnReady: does not come back before Start has returned
 	bCancelOK = 4 // OnStart only: the stop signal arrives during the hook, the hook still succeeds
 )
 
@@ -252,6 +252,10 @@ func (l *lockedBuf) contains(s string) bool {
 
 const startupMarker = "verif-c09-startup-marker"
 
+// caseDeadline: every legitimate case is over within ~3 s (two 1 s budgets plus work); a case that takes
+// longer than this has a Start that does not return.
+const caseDeadline = 12 * time.Second
+
 type runner struct {
 	id      string
 	sc      *Scenario
@@ -289,6 +293,9 @@ type runner struct {
 	pairDone  chan struct{}
 
 	logBuf lockedBuf // what the application's logger has written
+
+	abandoned atomic.Bool   // the case hit its deadline: its goroutines must not touch anything process-wide any more
+	abandonCh chan struct{} // closed together with `abandoned`
 
 	discard string
 	notes   []string
@@ -846,14 +853,19 @@ func (r *runner) build() error {
 	}
 	for i, b := range sc.Readies {
 		a.OnReady(func() {
-			defer func() {
-				if r.readyLeft.Add(-1) == 0 {
-					close(r.readyAll)
-				}
-			}()
 			r.ev(fmt.Sprintf("y %d %s %s", i, r.probes2(), b2s(r.a.Router().Frozen())))
-			if b == bPanic {
+			if r.readyLeft.Add(-1) == 0 {
+				close(r.readyAll) // every OnReady hook has been entered
+			}
+			switch b {
+			case bPanic:
 				panic("ready hook panic (injected)")
+			case bBlock:
+				// a hook that does not come back (a long warm-up): fire-and-forget means that nothing waits for it
+				select {
+				case <-r.startDone:
+				case <-r.abandonCh:
+				}
 			}
 		})
 	}
@@ -879,7 +891,7 @@ func (r *runner) build() error {
 		})
 	}
 	// instrumentation hook (not logged, registered last = runs first): the asynchronous OnReady hooks
-	// have all finished before the first logged shutdown event
+	// have all been entered (and have logged) before the first logged shutdown event
 	a.OnShutdown(func(ctx context.Context) {
 		if !waitCh(r.readyAll, 5*time.Second) {
 			r.notes = append(r.notes, "ready hooks missing at shutdown")
@@ -913,6 +925,7 @@ func (r *runner) run() obsT {
 	r.client = &http.Client{Transport: r.newTransport(), Timeout: 5 * time.Second}
 	r.plain = &http.Client{Transport: &http.Transport{DisableKeepAlives: true}, Timeout: 5 * time.Second}
 	r.startDone = make(chan struct{})
+	r.abandonCh = make(chan struct{})
 	r.readyAll = make(chan struct{})
 	r.hupRound.Store(-1)
 	r.ctx, r.cancelFn = context.WithCancel(context.Background())
@@ -986,7 +999,7 @@ func (r *runner) run() obsT {
 	}()
 
 	hung := false
-	deadline := time.After(30 * time.Second)
+	deadline := time.After(caseDeadline)
 	ctrlDone := make(chan struct{})
 	go func() {
 		defer close(ctrlDone)
@@ -1006,7 +1019,10 @@ func (r *runner) run() obsT {
 	}
 	o := obsT{Discard: r.discard, Notes: r.notes}
 	if hung {
-		// Start never returned: release everything so that the goroutines can go away
+		// Start never returned: release everything so that the goroutines can go away, and keep what is
+		// left of this case from sending signals into later cases
+		r.abandoned.Store(true)
+		close(r.abandonCh)
 		r.cancelFn()
 		for k := range r.reqs {
 			go r.releaseReq(k, false)
@@ -1121,6 +1137,9 @@ func (r *runner) controller() {
 	}
 	// 1. requests in flight
 	for k := range sc.Reqs {
+		if r.abandoned.Load() {
+			return
+		}
 		q := r.reqs[k]
 		go func() {
 			defer close(q.done)
@@ -1154,7 +1173,7 @@ func (r *runner) controller() {
 	}
 	// 2. reload rounds
 	for i := 0; i < len(sc.Rounds); i++ {
-		if r.started() || r.cancelled.Load() {
+		if r.started() || r.cancelled.Load() || r.abandoned.Load() {
 			break
 		}
 		rd := sc.Rounds[i]
@@ -1167,6 +1186,9 @@ func (r *runner) controller() {
 				break
 			}
 			if r.started() {
+				break
+			}
+			if r.abandoned.Load() {
 				break
 			}
 			r.hupRound.Store(int64(i))
@@ -1192,6 +1214,9 @@ func (r *runner) controller() {
 		}
 	}
 	// 3. the stop signal
+	if r.abandoned.Load() {
+		return
+	}
 	if !r.started() {
 		r.signal()
 	}
@@ -1366,10 +1391,20 @@ func main() {
 		os.Exit(2)
 	}
 	// serial phase: scenarios that use the process-wide SIGHUP or read goroutine dumps
+	hungBefore := false
 	for _, j := range jobs {
 		if j.sc.needsSerial() {
+			if hungBefore {
+				// what is left of a case that never returned may still ignore or receive the process-wide
+				// SIGHUP: later cases of this phase would not be reproducible
+				j.o = obsT{Discard: "skipped: an earlier case of the serial phase never returned"}
+				continue
+			}
 			signal.Notify(guard, syscall.SIGHUP)
 			j.o = runScenario(j.id, j.sc)
+			if j.o.Res == 8 {
+				hungBefore = true
+			}
 		}
 	}
 	signal.Notify(guard, syscall.SIGHUP)
@@ -1389,11 +1424,16 @@ func main() {
 		}()
 	}
 	wg.Wait()
-	emitted := 0
+	emitted, skipped := 0, 0
 	for _, j := range jobs {
 		if j.o.Discard != "" {
 			fmt.Fprintf(w, "# discarded %s: %s\n", j.id, j.o.Discard)
-			if st != nil {
+			if strings.HasPrefix(j.o.Discard, "skipped") {
+				skipped++
+				if st != nil {
+					st.Count("skipped_after_hang")
+				}
+			} else if st != nil {
 				st.Count("discarded")
 			}
 			continue
@@ -1405,7 +1445,7 @@ func main() {
 		st.Emit(w)
 	}
 	// discards are for the odd late goroutine; if they become the rule the run proves nothing
-	if nd := len(jobs) - emitted; len(jobs) >= 20 && nd*4 > len(jobs) {
+	if nd := len(jobs) - emitted - skipped; len(jobs) >= 20 && nd*4 > len(jobs) {
 		w.Flush()
 		fmt.Fprintf(os.Stderr, "%d of %d cases discarded: timing cannot be forced on this machine/tree\n", nd, len(jobs))
 		pkiCleanup()
